@@ -1,6 +1,6 @@
 (* C13 — metadata filters mean what the documented language says. *)
 From Coq Require Import ZArith.
-From Syz Require Import QParseTree QEval QSemProofs QParseProofs.
+From Syz Require Import QParseTree QLexRender QEval QSemProofs QParseProofs.
 (* the tables of the model are the ones regenerated from the Go sources on this run *)
 From Syz Require GenTablesOk.
 Open Scope N_scope.
@@ -43,6 +43,18 @@ Proof.
   - exact (eval_sem re e d b Hs).
 Qed.
 Print Assumptions C13_filter_meaning.
+
+(* from bytes: a filter TEXT written as the tokens of a documented expression, each followed by one space (identifiers
+   that are not keywords, decimal integers, strings without quote/backslash/NUL in either quote style, the documented
+   operators and keywords), lexes back to exactly those tokens, so Parse returns the tree of the expression *)
+Theorem C13_text_tree : forall pf e specs ps,
+  Renders pf LOr e specs -> Forall pt_ok ps -> Forall2 (fun sp p => sp (tok_of p)) specs ps ->
+  parse pf (render ps) = POk (to_node e).
+Proof. exact text_builds_tree. Qed.
+Print Assumptions C13_text_tree.
+
+Example C13_text_tree_nonvacuous : parse pf_small (render ex_ps) = POk (to_node ex_expr).
+Proof. exact ex_text_tree. Qed.
 
 (* the premises are satisfiable: "a == 1 OR NOT (u.x EXISTS) AND (b IN [2, 'k'])" *)
 Example C13_parse_tree_nonvacuous : parse pf_small ex_text = POk (to_node ex_expr).
